@@ -97,6 +97,8 @@ class Steps:
 def key_of(lid, ss):
     if ss.id == ROOT:
         return ROOT
+    if ss.id == '*INFERRED*':
+        return int(ss.ili.id.rsplit('x', 1)[1])       # placeholder of a concept the local lexicon lacks: identified by its ILI
     return int(ss.id.rsplit('-n', 1)[1])
 
 
@@ -116,11 +118,29 @@ def run_case(case, rec):
     try:
         with env.FreshDB():
             lexs = [graphs.lexicon_for(i, g, pos_of, r, words=False) for i, g in enumerate(gs)]
+            # some of the random graphs are also looked at through an expand lexicon: a local lexicon that has only some of
+            # the concepts (and no relations of its own) borrows the hypernymy of the graph lexicon by ILI; the concepts it
+            # lacks appear as placeholder synsets
+            expanded = {}
+            for i, (n, edges) in enumerate(gs):
+                if case['kind'] == 'random' and n >= 3 and i % 2 == 0:
+                    for ss_ in lexs[i]['synsets']:
+                        ss_['ili'] = f"i{i}x{ss_['id'].rsplit('-n', 1)[1]}"
+                    expanded[i] = set(r.sample(range(n), r.randint(2, n - 1)))
             for chunk in range(0, len(lexs), 16):
                 res = {'lmf_version': '1.0', 'lexicons': lexs[chunk:chunk + 16]}
                 wnio.add(wnio.write_resource(res, work, random.Random(1), name=f'g{chunk}.xml', surface='plain'))
+            if expanded:
+                locs = [{'id': f'q{i}', 'label': 'local', 'language': 'xx', 'email': 'e', 'license': 'l', 'version': '1', 'meta': None,
+                         'synsets': [{'id': f'q{i}-n{j}', 'ili': f'i{i}x{j}', 'partOfSpeech': pos_of(j), 'meta': None} for j in sorted(present)]}
+                        for i, present in expanded.items()]
+                wnio.add(wnio.write_resource({'lmf_version': '1.0', 'lexicons': locs}, work, random.Random(2), name='local.xml', surface='plain'))
             for i, (n, edges) in enumerate(gs):
                 check_graph(rec, steps, wn.Wordnet(f'g{i}:1'), f'g{i}', G(n, edges), pos_of, taxonomy, edges)
+                if i in expanded:
+                    rec.event('graph.through-expand')
+                    check_graph(rec, steps, wn.Wordnet(f'q{i}:1', expand=f'g{i}:1'), f'q{i}', G(n, edges), pos_of, taxonomy, edges,
+                                present=expanded[i])
                 rec.done([case['kind'], n, edges, case['posmode']], nontrivial=bool(edges),
                          sample={'nodes': n, 'edges': edges, 'pos': [pos_of(j) for j in range(n)]})
         rec.add_extra('exhaustive_scope', 'exhaustive: true refers to the enumerated finite spaces only - every labelled digraph on 1, 2 and 3 nodes '
@@ -132,14 +152,18 @@ def run_case(case, rec):
         env.rmtree(work)
 
 
-def check_graph(rec, steps, w, lid, g, pos_of, taxonomy, edges):
+def check_graph(rec, steps, w, lid, g, pos_of, taxonomy, edges, present=None):
     import wn
     n = g.n
     rec.event('graph.checked')
     dag = g.acyclic()
     rec.event('dag.graphs' if dag else 'cyclic.graphs')
     what = f'graph n={n} edges={edges}'
-    ss = {j: w.synset(f'{lid}-n{j}') for j in range(n)}
+    full = present is None
+    allnodes = list(range(n)) if full else sorted(present)
+    ss = {j: w.synset(f'{lid}-n{j}') for j in allnodes}
+    if not full:
+        what += f' seen through an expand lexicon, local synsets {allnodes}'
     if any(g.paths(j) is None for j in range(n)):
         rec.event('graph.skipped-too-many-paths')
         return
@@ -154,7 +178,7 @@ def check_graph(rec, steps, w, lid, g, pos_of, taxonomy, edges):
             raise
 
     try:
-        for j in range(n):
+        for j in allnodes:
             for sr in (False, True):
                 want = sorted(_norm(g.paths_sr(j, sr)))
                 got = sorted(_norm([key_of(lid, x) for x in p] for p in call('hypernym_paths', taxonomy.hypernym_paths, ss[j], simulate_root=sr)))
@@ -170,7 +194,7 @@ def check_graph(rec, steps, w, lid, g, pos_of, taxonomy, edges):
                         rec.violation('shortcut-differs', f'{what}: Synset.{name} differs from wn.taxonomy.{name}')
         # roots / leaves / taxonomy depth per part of speech
         poses = sorted({pos_of(j) for j in range(n)})
-        for pos in [None] + poses:
+        for pos in ([None] + poses if full else []):
             nodes = [j for j in range(n) if pos is None or pos_of(j) == pos or {pos, pos_of(j)} == {'a', 's'}]
             got = sorted(key_of(lid, x) for x in call('roots', taxonomy.roots, w, pos=pos))
             if got != sorted(g.roots(nodes)):
@@ -185,8 +209,8 @@ def check_graph(rec, steps, w, lid, g, pos_of, taxonomy, edges):
                     key = 'taxonomy-depth-cyclic' if (not dag and v == _depth_with_seen_shortcut(g, nodes, pos, pos_of)) else 'taxonomy_depth'
                     rec.violation(key, f'{what}: taxonomy_depth({pos}) = {v}, longest chain {want}')
         # pairs
-        for a in range(n):
-            for b in range(n):
+        for a in allnodes:
+            for b in allnodes:
                 if not _compatible(pos_of(a), pos_of(b)):
                     continue
                 rec.event('pair.checked')
@@ -240,14 +264,14 @@ def check_graph(rec, steps, w, lid, g, pos_of, taxonomy, edges):
                 return [[key_of(lid, y) for y in x] if isinstance(x, list) else key_of(lid, x) for x in v]
             return v
 
-        for j in range(n):
+        for j in allnodes:
             for name in ('hypernym_paths', 'min_depth', 'max_depth'):
                 for f, args in ((getattr(taxonomy, name), (ss[j],)), (getattr(ss[j], name), ())):
                     rec.event('default.checked')
                     if outcome(f, *args) != outcome(f, *args, simulate_root=False):
                         rec.violation('default-simulate_root', f'{what}: {name}(n{j}) without simulate_root differs from simulate_root=False')
-        for a in range(n):
-            for b in range(n):
+        for a in allnodes:
+            for b in allnodes:
                 if not _compatible(pos_of(a), pos_of(b)):
                     continue
                 for name in ('common_hypernyms', 'lowest_common_hypernyms', 'shortest_path'):
